@@ -63,6 +63,7 @@ Theorem no_excluded_shown s q :
   NoExcl fb s.
 Proof.
   intros Ho Hex Hfo c di t Hc Hac Hdi Ht Hsh.
+  pose proof (factors_grouped fb HF1 HT s q Ho Hfo) as Hg.
   cbn [code_sem s_factors] in Hfo.
   rewrite (forallb_index_map_ds (fun f fd => code_factor fb f fd) (fun f d => factor_ok (code_sem fb) q f d) (fl_design fb)) in Hfo.
   unfold is_excluded_or_inconsistent, is_excluded_combination.
@@ -87,7 +88,7 @@ Proof.
     destruct (shown_cell s q c di t f l Ho Hc Hac Hdi Ht Hsh Hp) as (Hf0 & Hlv & Ecell & _).
     assert (Hf : sact fb f = true).
     { apply (sact_split fb). split; [exact Hf0|]. unfold is_complex, factor_at. now rewrite Efd. }
-    pose proof (proj1 (factor_ok_f1 fb HF1 HT s q f fd Ho Efd Hf) (Hfo f fd Efd) w Ew t l Ht Ecell) as Hacc.
+    pose proof (proj1 (factor_ok_f1 fb HF1 HT s q f fd Ho Hg Efd Hf) (Hfo f fd Efd) w Ew t l Ht Ecell) as Hacc.
     rewrite (accepts_level_accepts fb HF1 s q f fd w t l Ho Efd Ew Hf Ht) in Hacc.
     assert (Hin : In (map (lev q t) (win_deps w))
                      (product (map (fun d => match lookup_level di d with Some x => [x] | None => seq 0 (nlevels fb d) end)
